@@ -201,7 +201,7 @@ fn main() {
     let args = &Args::parse(&a[1..]);
     let nkeys = args.get("keys", 24);
     let mut out = Out::new(&args.out, "C19", args.shards, HEADER);
-    out.nontrivial_rule = "one case = a HashRing built by new(join order) and changed by up to 4 add_node/remove_node calls (node ids sequential, 0-based, congruent mod 64/2^32/2^63, arbitrary u64, or wide clusters of 63-200 nodes; vnodes 0-150 incl. with_defaults; rf 0-6 or around the cluster size; per-key rf up to u64::MAX; keys up to 4 KiB, 64 KiB in thorough), observed after every step on a batch of keys (physical_nodes, version, ring vector incl. positions, get_replicas, get_replicas_with_rf), plus 2 routers (new / from_config, built before or after the membership changes on the shared ring, peers edited by update_peer/remove_peer) with their routing tables and the output of a GossipState script (advance_epoch, queue_deltas, queue_deltas_broadcast, queue_heartbeat, drain_outbound, set_router), and in 1 case of 16 large queue_deltas batches (1..4000 updates, queue pre-filled up to its capacity); non-trivial = final ring has >= 2 nodes, >= 1 vnode each, and >= 1 key; distinct by canonical text of (vnodes, rf, join order, ops, keys)".into();
+    out.nontrivial_rule = "one case = a HashRing built by new(join order) and changed by up to 4 add_node/remove_node calls (node ids sequential, 0-based, congruent mod 64/2^32/2^63, arbitrary u64, or wide clusters of 63-200 nodes; vnodes 0-150 incl. with_defaults; rf 0-6 or around the cluster size; per-key rf up to u64::MAX; keys up to 4 KiB, 8 KiB in thorough), observed after every step on a batch of keys (physical_nodes, version, ring vector incl. positions, get_replicas, get_replicas_with_rf), plus 2 routers (new / from_config, built before or after the membership changes on the shared ring, peers edited by update_peer/remove_peer) with their routing tables and the output of a GossipState script (advance_epoch, queue_deltas, queue_deltas_broadcast, queue_heartbeat, drain_outbound, set_router), and in 1 case of 16 large queue_deltas batches (1..4000 updates, queue pre-filled up to its capacity); non-trivial = final ring has >= 2 nodes, >= 1 vnode each, and >= 1 key; distinct by canonical text of (vnodes, rf, join order, ops, keys)".into();
     let range: Vec<u64> = match args.only {
         Some(i) => vec![i],
         None => (0..args.n).collect(),
